@@ -67,6 +67,7 @@ Definition upd {A} (f : modid -> option A) (m : modid) (v : option A) : modid ->
 
 Definition put_meta (c : store) m e := {| s_meta := upd (s_meta c) m (Some e); s_ex := s_ex c; s_data := s_data c |}.
 Definition put_ex (c : store) m x := {| s_meta := s_meta c; s_ex := upd (s_ex c) m (Some x); s_data := s_data c |}.
+Definition del_entry (c : store) m := {| s_meta := upd (s_meta c) m None; s_ex := upd (s_ex c) m None; s_data := s_data c |}.
 Definition put_data (c : store) m d := {| s_meta := s_meta c; s_ex := s_ex c; s_data := upd (s_data c) m (Some d) |}.
 
 (* ---------------------------------------------------------------- small list helpers *)
@@ -108,10 +109,17 @@ Definition extend (env : modid -> option ihash) (S : list modid) (f : modid -> i
 Section Protocol.
   Variable content_of : modid -> stamp -> content.
   Variable imports : modid -> content -> opts -> list modid.
+  (* `from pkg import name`: pkg.name is only PROBED (BuildManager.is_module): it becomes a dependency if the module
+     exists and is otherwise recorded nowhere - neither in dependencies nor in suppressed *)
+  Variable probes : modid -> content -> opts -> list modid.
   Variable analyze : list modid -> (modid -> content) -> opts -> (modid -> option ihash) -> modid -> result.
   Variable sccs_of : list (modid * list modid) -> list (list modid).
   Variable reach : list (modid * list modid) -> modid -> modid -> bool.
   Variable sdo_of : list modid -> opts -> nat.
+  (* State.ignore_all: the module is followed silently (follow_imports=silent and not a command-line root, or a
+     silent-import path).  It is a function of where the file was found / how it was reached (part of the logical
+     version) and of the options. *)
+  Variable ign_of : modid -> stamp -> opts -> bool.
 
   (* ---- find_cache_meta: version, options, plugin data, meta_ex present (no look at source or data) *)
   Definition find_cache_meta (c : store) (o : opts) (m : modid) : option (meta * meta_ex) :=
@@ -123,8 +131,8 @@ Section Protocol.
     end.
 
   (* ---- validate_meta: ignore_all, data file mtime, then (mtime,size,path) or else the source hash *)
-  Definition validate_meta (c : store) (m : modid) (s : stamp) (e : meta) : bool :=
-    negb (m_ignore_all e)
+  Definition validate_meta (c : store) (o : opts) (m : modid) (s : stamp) (e : meta) : bool :=
+    (negb (m_ignore_all e) || ign_of m s o)
     && match s_data c m with Some d => Nat.eqb (d_mtime d) (m_data_mtime e) | None => false end
     && (Nat.eqb (m_stamp e) s || Nat.eqb (m_hash e) (content_of m s)).
 
@@ -132,24 +140,40 @@ Section Protocol.
     match lookup fs m with
     | None => None
     | Some s => match find_cache_meta c o m with
-                | Some (e, x) => if validate_meta c m s e then Some (e, x) else None
+                | Some (e, x) => if validate_meta c o m s e then Some (e, x) else None
                 | None => None
                 end
     end.
 
-  (* NOT modelled: validate_meta's optimisation write (hash matched but mtime/path did not -> the meta is
-     rewritten with the new mtime/path/size).  It only decides whether a LATER validation succeeds through the
-     stamp comparison or through the hash comparison; both succeed under the version discipline. *)
+  (* validate_meta's optimisation write: the hash matched but mtime/path/size did not -> the meta is rewritten with
+     the new mtime, path, size (and the current options snapshot) while the graph is loaded *)
+  Definition restamp (c : store) (o : opts) (fs : FS) : store :=
+    {| s_meta := fun m =>
+         match load_meta c o fs m, lookup fs m with
+         | Some (e, _), Some s =>
+             if Nat.eqb (m_stamp e) s then s_meta c m
+             else Some {| m_stamp := s; m_hash := m_hash e; m_deps := m_deps e; m_supp := m_supp e;
+                          m_snap := o_snap o; m_version := m_version e; m_plugin := m_plugin e; m_sdo := m_sdo e;
+                          m_ihash := m_ihash e; m_dep_hashes := m_dep_hashes e; m_ignore_all := m_ignore_all e;
+                          m_data_mtime := m_data_mtime e |}
+         | _, _ => s_meta c m
+         end;
+       s_ex := s_ex c; s_data := s_data c |}.
 
   (* ---- load_graph: cached lists are reused for a valid meta; missing deps are suppressed,
           suppressed deps that can now be found are added back *)
   Definition cands (c : store) (o : opts) (fs : FS) (m : modid) (s : stamp) : list modid :=
     match load_meta c o fs m with
     | Some (e, _) => m_deps e ++ m_supp e
+    | None => imports m (content_of m s) o ++ probes m (content_of m s) o
+    end.
+  Definition hard_cands (c : store) (o : opts) (fs : FS) (m : modid) (s : stamp) : list modid :=
+    match load_meta c o fs m with
+    | Some (e, _) => m_deps e ++ m_supp e
     | None => imports m (content_of m s) o
     end.
   Definition direct_deps c o fs m s := found fs (cands c o fs m s).
-  Definition supp_deps c o fs m s := notfound fs (cands c o fs m s).
+  Definition supp_deps c o fs m s := notfound fs (hard_cands c o fs m s).   (* a probe that is not found is dropped *)
   Definition old_indirect c o fs m : list modid :=
     match load_meta c o fs m with Some (_, x) => found fs (x_deps x) | None => [] end.
 
@@ -193,14 +217,19 @@ Section Protocol.
   (* ---- a fresh module: tree from the data file, hash from the meta, errors replayed from meta_ex *)
   Definition cached_pm (c : store) (o : opts) (fs : FS) (m : modid) : pm :=
     match load_meta c o fs m, s_data c m with
-    | Some (e, x), Some d => {| p_hash := m_ihash e; p_iface := d_iface d; p_errors := x_errors x |}
+    | Some (e, x), Some d =>
+        {| p_hash := m_ihash e; p_iface := d_iface d;
+           p_errors := match lookup fs m with Some s => if ign_of m s o then [] else x_errors x | None => [] end |}
     | _, _ => {| p_hash := 0; p_iface := 0; p_errors := [] |}
     end.
 
   Definition src_of (fs : FS) (m : modid) : content :=
     match lookup fs m with Some s => content_of m s | None => 0 end.
 
-  Definition fresh_pm (r : result) : pm := {| p_hash := r_iface r; p_iface := r_iface r; p_errors := r_errors r |}.
+  Definition ign_now (fs : FS) (o : opts) (m : modid) : bool :=
+    match lookup fs m with Some s => ign_of m s o | None => false end.
+  Definition fresh_pm (fs : FS) (o : opts) (R : modid -> result) (m : modid) : pm :=
+    {| p_hash := r_iface (R m); p_iface := r_iface (R m); p_errors := if ign_now fs o m then [] else r_errors (R m) |}.
 
   (* ---- process_stale_scc, second half: write_cache (data iff interface hash changed), then meta + meta_ex *)
   Definition new_indirect c o fs (m : modid) (s : stamp) (r : result) : list modid :=
@@ -214,9 +243,11 @@ Section Protocol.
     | Some s =>
         let r := R m in
         let old_h := match find_cache_meta c0 o m with Some (e, _) => m_ihash e | None => 0 end in
-        let c1 := if Nat.eqb old_h (r_iface r) then c' else put_data c' m {| d_iface := r_iface r; d_mtime := now |} in
+        (* write_cache first removes meta and meta_ex (an interrupted update leaves an entry that is ignored) *)
+        let cd := del_entry c' m in
+        let c1 := if Nat.eqb old_h (r_iface r) then cd else put_data cd m {| d_iface := r_iface r; d_mtime := now |} in
         match s_data c1 m with
-        | None => c1            (* getmtime(data_file) failed: no meta is written *)
+        | None => c1            (* getmtime(data_file) failed: no meta is written (the old ones are gone) *)
         | Some d =>
             let deps := direct_deps c0 o fs m s in
             let supp := supp_deps c0 o fs m s in
@@ -224,9 +255,10 @@ Section Protocol.
             let e := {| m_stamp := s; m_hash := content_of m s; m_deps := deps; m_supp := supp;
                         m_snap := o_snap o; m_version := o_version o; m_plugin := o_plugin o;
                         m_sdo := sdo_of supp o; m_ihash := r_iface r;
-                        m_dep_hashes := map (cur_hash c0 o env') deps; m_ignore_all := false;
+                        m_dep_hashes := map (cur_hash c0 o env') deps; m_ignore_all := ign_of m s o;
                         m_data_mtime := d_mtime d |} in
-            let x := {| x_deps := ind; x_dep_hashes := map (cur_hash c0 o env') ind; x_errors := r_errors r |} in
+            let x := {| x_deps := ind; x_dep_hashes := map (cur_hash c0 o env') ind;
+                        x_errors := if ign_of m s o then [] else r_errors r |} in
             put_ex (put_meta c1 m e) m x
         end
     end.
@@ -238,23 +270,37 @@ Section Protocol.
     if scc_fresh c0 o fs dm env S then (env ++ map (fun m => (m, cached_pm c0 o fs m)) S, c')
     else
       let R := analyze S (src_of fs) o (ienv env) in
-      let env' := env ++ map (fun m => (m, fresh_pm (R m))) S in
+      let env' := env ++ map (fun m => (m, fresh_pm fs o R m)) S in
       (env', fold_left (write_module c0 o fs now env' R) S c').
 
-  (* ---- a whole run: load, SCCs in dependency order, process each *)
+  (* ---- a whole run: load (with the mtime-update writes), SCCs in dependency order, process each *)
   Definition run (c : store) (fs : FS) (o : opts) (now : nat) : penv * store :=
     let dm := depmap c o fs in
-    fold_left (process_scc c o fs now dm) (sccs_of dm) ([], c).
+    fold_left (process_scc c o fs now dm) (sccs_of dm) ([], restamp c o fs).
 
-  Definition warm := run.
-  Definition cold (fs : FS) (o : opts) (now : nat) := run empty_store fs o now.
+  (* ---- blocking errors (syntax errors ...): they are raised while the graph is loaded, i.e. for the modules that
+     have to be parsed because they have no valid meta.  The run aborts with status 2 before any SCC is processed;
+     the only writes that happened are the mtime-update writes of validate_meta. *)
+  Variable blocker : modid -> content -> bool.
+  Definition blocked (c : store) (o : opts) (fs : FS) : bool :=
+    existsb (fun ms => match load_meta c o fs (fst ms) with
+                       | Some _ => false
+                       | None => blocker (fst ms) (content_of (fst ms) (snd ms)) end) fs.
+  Definition run_b (c : store) (fs : FS) (o : opts) (now : nat) : option penv * store :=
+    if blocked c o fs then (None, restamp c o fs)
+    else let r := run c fs o now in (Some (fst r), snd r).
 
-  (* what the user sees: for every file (in a fixed file order) its diagnostics in emission order, and the status *)
+  Definition warm := run_b.
+  Definition cold (fs : FS) (o : opts) (now : nat) := run_b empty_store fs o now.
+
+  (* what the user sees: for every file (in a fixed file order) its diagnostics in emission order, and the status;
+     None = the run was aborted by a blocking error (exit status 2; which blocker messages are printed is not modelled) *)
   Definition report (fs : FS) (env : penv) : list (modid * option (list diag)) :=
     map (fun ms => (fst ms, option_map p_errors (lookup env (fst ms)))) fs.
   Definition status (fs : FS) (env : penv) : bool :=
     existsb (fun ms => match lookup env (fst ms) with Some p => negb (Nat.eqb (length (p_errors p)) 0) | None => false end) fs.
-  Definition output (fs : FS) (rs : penv * store) := (report fs (fst rs), status fs (fst rs)).
+  Definition output (fs : FS) (rs : option penv * store) :=
+    option_map (fun env => (report fs env, status fs env)) (fst rs).
 
   (* which modules a run re-analysed (manager.rechecked_modules): used by the correspondence harness *)
   Definition rechecked (c : store) (fs : FS) (o : opts) : list modid :=
@@ -262,7 +308,7 @@ Section Protocol.
     snd (fold_left (fun (a : (penv * store) * list modid) S =>
                       let st' := process_scc c o fs 0 dm (fst a) S in
                       (st', if scc_fresh c o fs dm (fst (fst a)) S then snd a else snd a ++ S))
-                   (sccs_of dm) (([], c), [])).
+                   (sccs_of dm) (([], restamp c o fs), [])).
 
   (* edit histories: a history is the list of file-system states (and options) mypy is run on, one run after
      every edit; `now` of the k-th run is k+1 *)
